@@ -38,6 +38,8 @@ pub struct Flags {
     pub acc: bool,
     /// C05: differential against a twin database in which the lru function caches without bound
     pub lru_twin: bool,
+    /// C26: results that were valid when the database was serialized are not re-executed
+    pub persist: bool,
 }
 
 type K = (F, u64);
@@ -60,6 +62,7 @@ struct KRec {
     /// (op index, value changed or the result became less durable w.r.t. previous execution)
     execs: Vec<(usize, bool)>,
     last_exec_rev: u64,
+    last_valid_rev: u64,
     /// durability of the result: minimum over everything the execution read (0 = LOW .. 3)
     dur: u8,
 }
@@ -105,6 +108,9 @@ pub struct Monitor {
     participant: std::collections::HashSet<K>,
     taint_fbp: bool,
     taint_stale: bool,
+    restored: std::collections::HashSet<K>,
+    had_round_trip: bool,
+    rt_rev: u64,
     seen_ids: std::collections::HashSet<u64>,
     dead_ids: std::collections::HashSet<u64>,
     /// Fb keys whose last completed execution hit a cycle inside its activation
@@ -136,6 +142,9 @@ impl Monitor {
             participant: Default::default(),
             taint_fbp: false,
             taint_stale: false,
+            restored: Default::default(),
+            had_round_trip: false,
+            rt_rev: 0,
             seen_ids: Default::default(),
             dead_ids: Default::default(),
             last_exec_cyclic: Default::default(),
@@ -240,6 +249,22 @@ impl Monitor {
                 self.last_exec_cyclic.remove(&k);
             }
         }
+        if self.flags.persist {
+            match op {
+                Op::RoundTrip => {
+                    self.restored = self
+                        .recs
+                        .iter()
+                        .filter(|(k, r)| r.last_valid_rev == self.rev && !r.untracked && !matches!(k.0, F::Lru | F::Sp))
+                        .map(|(k, _)| *k)
+                        .collect();
+                    stats.bump("round_trips", 1);
+                    stats.bump("memos_valid_at_round_trip", self.restored.len() as u64);
+                }
+                Op::Set(..) | Op::SetD(..) | Op::Syn(_) | Op::SetExtSyn(..) | Op::Swap(_) => self.restored.clear(),
+                _ => {}
+            }
+        }
         // record writes
         match op {
             Op::Set(c, _) => self.writes.push((i, Write::Cell(*c))),
@@ -273,6 +298,12 @@ impl Monitor {
                     }
                     if self.flags.justify {
                         self.justified(k, i).map_err(|m| ("unjustified-execution".to_string(), m))?;
+                    }
+                    if self.flags.persist && self.restored.contains(&k) {
+                        return Err((
+                            "restored-memo-reexecuted".into(),
+                            format!("{k:?} was valid when the database was serialized and its inputs are unchanged, but it was re-executed after the round trip"),
+                        ));
                     }
                     if k.0.has_cycle_handling() {
                         if stack.iter().any(|fr| fr.k.0.has_cycle_handling() && fr.k != k) {
@@ -371,6 +402,7 @@ impl Monitor {
                                     untracked: fr.untracked,
                                     execs,
                                     last_exec_rev: self.rev,
+                                    last_valid_rev: self.rev,
                                     dur: fr.dur,
                                 },
                             );
@@ -404,6 +436,7 @@ impl Monitor {
                     if let Some(k) = self.s2m.get(key) {
                         if let Some(r) = self.recs.get_mut(k) {
                             r.last_valid_op = i;
+                            r.last_valid_rev = self.rev;
                         }
                     }
                 }
@@ -504,12 +537,18 @@ impl Monitor {
     ///      input field read by it (directly or through cycle-handling callees, i.e. the
     ///      dependencies salsa flattens) was written since it last executed.
     pub fn pre_scan(&mut self, i: usize, op: &Op, log: &[Rec], sess: &Sess) {
+        if matches!(op, Op::RoundTrip) {
+            self.had_round_trip = true;
+        }
         let rd = format!("{:?}", salsa::plumbing::current_revision(&sess.db));
         if rd != self.last_rev_dbg {
             self.rev += 1;
             self.last_rev_dbg = rd;
         }
         let _ = (i, op);
+        if matches!(op, Op::RoundTrip) {
+            self.rt_rev = self.rev;
+        }
         // (key, cycle hit inside the activation)
         let mut stack: Vec<(K, bool)> = Vec::new();
         for r in log {
@@ -598,6 +637,23 @@ impl Monitor {
             {
                 return Some("cycle-backdate-assert");
             }
+        }
+        if let Out::Panic(ql::items::Pk::Other(m)) = out {
+            if self.flags.persist && self.had_round_trip && m.contains("cannot delete read-locked id") {
+                return Some("struct-read-locked-by-serialization");
+            }
+            if self.flags.persist && m.contains("values are serialized in allocation order") {
+                return Some("deleted-struct-slot-breaks-deserialization");
+            }
+        }
+        if self.flags.persist
+            && self.had_round_trip
+            && self.rev == self.rt_rev
+            && self.prog.nodes.iter().any(|n| n.kind == Kind::Mk)
+        {
+            // same cause, value flavour: a struct re-created in the revision in which the database
+            // was serialized counts as already updated, so its fields keep their old values
+            return Some("struct-read-locked-by-serialization");
         }
         if self.sub.taint_spec_switch {
             return Some("specified-to-computed-switch-not-propagated");
